@@ -1,5 +1,6 @@
 import Zeno.Proofs.RateLimiter
 import Zeno.Gen.RateLimiter
+import Zeno.Gen.Archiver
 /-!
 # C13 — per-host politeness: bounded request rate and honoured back-off penalties
 
@@ -66,5 +67,9 @@ theorem c13_table_bounded (m : Nat) (hosts : List String) (hh : ∀ x ∈ hosts,
 /-- non-vacuity: a concrete run that releases, refuses, is penalised and recovers -/
 example : (run G (TB.new 1 1 0) [(0, .try), (0, .try), (1, .fail 429), (3, .try), (6, .try), (7, .try)]).2 = 2 := by
   decide +kernel
+
+/-- the one place that uses the limiter, `archive()`, addresses a host's bucket by the same key when it waits, when it reports a
+failure and when it reports a success (so the penalties proved above land on the bucket the next request waits on) -/
+theorem call_sites_ok : Zeno.Gen.Archiver.facts.limiterKeysAgree = true := by decide
 
 end Zeno.Props.C13
